@@ -15,7 +15,7 @@ THEOREMS = [
     ("Mpgs.Server.C01_loop_halfopen_untouched", "full"),
 ]
 # secondary tie (DESIGN 4.2): kernels regenerated from the source on every run, proved equal to the model (Props/Equiv<Group>.lean)
-EQUIV = {"Header": ["Mpgs.Equiv.gen_header_to_bytes", "Mpgs.Equiv.gen_total_size"]}
+EQUIV = {"Header": ["Mpgs.Equiv.gen_header_to_bytes", "Mpgs.Equiv.gen_total_size", "Mpgs.Equiv.gen_to_bytes_seals", "Mpgs.Equiv.gen_from_bytes_opens"]}
 ASSUMPTIONS = [
     "at the server loop (C01_loop_halfopen_untouched): a datagram from an address that has a half-open connection and that does not decode "
     "under that connection's key - a complete CRC-valid CLIENT_HELLO forged in the name of a connecting client included - does not "
